@@ -150,6 +150,7 @@ type Sim struct {
 	simEnd      time.Duration
 	stateHashes []uint64
 	Sample      interface{}            // harness-provided description of this run (config, first ops)
+	opNotes     []string               // the first workload operations and faults of the run, kept for the evidence sample
 	Data        map[string]interface{} // harness scratch
 }
 
@@ -334,11 +335,31 @@ func (s *Sim) emitLocked(task *Task, kind string, obj int, detail string) uint64
 	if kind == "op" || kind == "fault" {
 		// workload operations and injected faults are part of what makes two runs distinct
 		s.schedHash = fnvs(fnvs(s.schedHash, kind), detail)
+		if len(s.opNotes) < 14 && (kind == "op" || len(s.opNotes) == 0 || s.opNotes[len(s.opNotes)-1] != "fault: "+detail) {
+			d := detail
+			if len(d) > 400 {
+				d = d[:400] + "..."
+			}
+			s.opNotes = append(s.opNotes, kind+": "+d)
+		}
 	}
 	if s.KeepLog && len(s.Log) < s.logCap {
 		s.Log = append(s.Log, Event{s.seq, at, name, kind, obj, detail})
 	}
 	return s.seq
+}
+
+// sample: what the harness recorded about this run, or else its first operations and faults.
+//
+//go:norace
+func (s *Sim) sample() interface{} {
+	if s.Sample != nil {
+		return s.Sample
+	}
+	if len(s.opNotes) == 0 {
+		return nil
+	}
+	return map[string]interface{}{"first_operations_and_faults": s.opNotes}
 }
 
 // Seq returns the current global event sequence number.
@@ -888,7 +909,7 @@ func RunBubble(run bubbleRunner, tape *Tape, seed uint64, opt Options, root func
 	}
 	res = Result{Seed: seed, Outcome: s.Outcome, Steps: s.Step, Switches: s.Switches, SimTime: s.simEnd, TraceHash: s.hash,
 		ScheduleHash: s.schedHash, Failures: s.failures, Probes: s.Probes.Map(), Faults: s.Faults.Map(), OracleChecks: s.OracleN,
-		Tasks: len(s.tasks), Tape: tape.Values(), Labels: tape.Labels, Log: s.Log, StateHashes: s.stateHashes, Sample: s.Sample}
+		Tasks: len(s.tasks), Tape: tape.Values(), Labels: tape.Labels, Log: s.Log, StateHashes: s.stateHashes, Sample: s.sample()}
 	return
 }
 
